@@ -309,7 +309,7 @@ def object_history_violations(run):
                     bad.append((k, f"object {oid} detached twice (steps {detached[oid]} and {k})"))
                 detached[oid] = k
             elif name == "destroy":
-                oid = args[0]
+                oid = args[1]
                 if oid in gone:
                     bad.append((k, f"object {oid} destroyed twice"))
                 gone[oid] = k
@@ -416,9 +416,9 @@ def mon_C09(run):
             if name == "detach":
                 detached[args[1]] = detached.get(args[1], 0) + 1
             elif name == "destroy":
-                gone[args[0]] = "destroyed"
-                if detached.get(args[0], 0) != 1:
-                    bad.append((k, f"object {args[0]} was destroyed by the live pool after {detached.get(args[0], 0)} detach calls"))
+                gone[args[1]] = "destroyed"
+                if detached.get(args[1], 0) != 1:
+                    bad.append((k, f"object {args[1]} was destroyed by the live pool after {detached.get(args[1], 0)} detach calls"))
             elif name == "taken":
                 gone[args[1]] = "taken"
                 if detached.get(args[1], 0) != 1:
